@@ -17,7 +17,7 @@ CASE_TIMEOUT = int(os.environ.get('VERIF_CASE_TIMEOUT', '150'))
 CAP_BOUND = 150            # horizon cap for campaigns that do not decide termination
 
 
-class CaseTimeout(Exception):
+class CaseTimeout(BaseException):     # not an Exception: must not be swallowed by probes
     pass
 
 
